@@ -99,6 +99,13 @@ func checkC08(c *Ctx) {
 		}
 	}
 	// newline inside a string is not a delimiter (and is a control character)
+	// lines laid across the block boundary at which a full index buffer is handed over
+	for _, d := range handoverStraddleDocs(true, []int{0, 45}) {
+		add("value-across-index-handover", d)
+	}
+	for _, d := range handoverEscapeDocs(true, []int{13}) {
+		add("escape-across-index-handover", d)
+	}
 	// a line feed inside a 64-byte block that holds nothing but white space (long blank runs
 	// between documents): the separator at every offset of such a block, with spaces, tabs
 	// and carriage returns as filler, and documents that together would still parse as one
